@@ -1,6 +1,7 @@
 """C14 -- occlusion/mismatch filling touches only flagged pixels, fills from valid ones.
 
-T-gen : Gen/ValConst.v (pandora/constants.py) re-checked equal to the model's constants.
+T-gen : Gen/ValConst.v (pandora/constants.py) re-checked equal to the model's constants; Gen/Callbacks.v
+        (ast of PandoraMachine.validation_run) re-checked equal to the call structure of validation_interp_run.
 T-corr: Model/Interp.v (extracted, fid 1) against the real
         validation.AbstractInterpolation(interpolated_disparity=m).interpolated_disparity(ds)
         (compiled numba kernels, public entry point), exact comparison of the disparity map
@@ -19,7 +20,7 @@ import xarray as xr
 
 from harness import core
 
-GEN = ["gen_valconst"]
+GEN = ["gen_valconst", "gen_callbacks"]
 EXTRACT_FILES = ["X14"]
 DRIVERS = ["x14"]
 RULE = ("a case = a disparity map (1..7 x 1..9, values k/4, invalid_disparity -9999 or NaN) + a validity mask laid "
@@ -27,16 +28,26 @@ RULE = ("a case = a disparity map (1..7 x 1..9, values k/4, invalid_disparity -9
         "offset 0/1.  Layout classes: none_valid, one_valid, one_path, borders, mixed, sparse, tall, wide, "
         "refill (flagged pixels already carrying bit 4/5), exhaustive 2x3 and 1x5 over the four states.  A case is "
         "non-trivial when at least one flagged pixel is filled and at least one pixel stays unchanged; distinct by "
-        "content digest")
+        "content digest.  Second stream: PandoraMachine.validation_run (cross_checking_accurate + interpolated_disparity) "
+        "on left/right disparity datasets generated as for C07 (1..6 x 1..14, thresholds 0..2, offsets 0..3), "
+        "non-trivial when some mask changes between cross-check and final")
 ASSUMES = [
     "numba/numpy primitives used by the kernels (np.argmax of booleans, np.nanmedian, np.argsort with NaN last and "
     "insertion sort below 15 elements, int() truncation, uint16 += / -=) are hand-modelled and validated by this "
     "correspondence on every run",
     "each kernel iteration writes only its own pixel of the output copies and reads only the input arrays (visible "
     "in the source: out_disp[col,row]/out_val[col,row] vs disp/valid) -- the model is the per-pixel function",
-    "valid pixels hold finite disparities (NaN only on invalid pixels) for the value-range theorems",
+    "valid pixels hold finite disparities (NaN only on invalid pixels) for the value-range theorem "
+    "(C14_filled_between_min_max_valid, hypothesis valid_range)",
+    "no pixel carries bit 8 and bit 9 together (hypothesis never_both of the clause theorems and of "
+    "C14_sgm_meets_spec): established by the cross-check (C14_cross_check_never_both) and preserved by the "
+    "interpolation (C14_never_both_preserved); on such a pixel sgm's `-= 512; += 256` carries "
+    "(C14_sgm_both_bits_carry)",
+    "border pixels hold bit 0 only when the interpolation starts (C07_xcheck_border_bit0): cases with other "
+    "states on the border are used for the correspondence only",
 ]
-TRUSTED = ["Gen/ValConst.v produced by translator/gen_valconst.py from the imported pandora.constants"]
+TRUSTED = ["Gen/ValConst.v produced by translator/gen_valconst.py from the imported pandora.constants",
+           "Gen/Callbacks.v produced by translator/gen_callbacks.py from the ast of state_machine.py"]
 
 INV = 0b01111000011
 OCC, MIS, FOCC, FMIS = 256, 512, 16, 32
@@ -95,12 +106,15 @@ def dress(rng, n0, n1, st, kind, values=None):
     """states -> disparity map (Fractions/None) and mask"""
     invalid_disp = rng.choice([Fraction(-9999), None])
     offset = 1 if (n0 >= 3 and n1 >= 3 and rng.random() < 0.2) else 0
+    # a quarter of the offset cases keep arbitrary states on the border (never left by the cross-check: outside the
+    # property's domain, used only to tie mc-cnn's final mask_border to the model)
+    dirty_border = offset == 1 and rng.random() < 0.25
     disp, mask = [], []
     for r in range(n0):
         drow, mrow = [], []
         for c in range(n1):
             s = st[r][c]
-            if offset and (r in (0, n0 - 1) or c in (0, n1 - 1)):
+            if offset and (r in (0, n0 - 1) or c in (0, n1 - 1)) and not dirty_border:
                 drow.append(invalid_disp)
                 mrow.append(1)   # after cross-checking border pixels hold bit 0 only
                 continue
@@ -216,7 +230,122 @@ def rays(method_kernel, n0, n1, r, c):
     return out
 
 
+# ---- Spec/Interp.v transcribed (paths as positions, first valid pixel, median, second lowest |d|): the outputs the
+# Spec allows for a case; written from the Spec, not from the kernels (directions as (drow, dcol), rays followed
+# until they leave the map, two passes, each from the map before the pass)
+DIRS8_RC = [(1, 0), (1, -1), (0, -1), (-1, -1), (-1, 0), (-1, 1), (0, 1), (1, 1)]
+DIRS16_RC = [(2, 0), (2, -1), (2, -2), (1, -2), (0, -2), (-1, -2), (-2, -2), (-2, -1),
+             (-2, 0), (-2, 1), (-2, 2), (-1, 2), (0, 2), (1, 2), (2, 2), (2, 1)]
+
+
+def _quot2(x):
+    return x // 2 if x >= 0 else -((-x) // 2)
+
+
+def _swapped(a, b, m):
+    return (m & ~(1 << a)) | (1 << b)
+
+
+def _first_valid(path, n0, n1, mask):
+    i = 1
+    while True:
+        r, c = path(i)
+        if not (0 <= r < n0 and 0 <= c < n1):
+            return None
+        if (mask[r][c] & INV) == 0:
+            return (r, c)
+        i += 1
+
+
+def _contributions(kind, dirs, n0, n1, d, m, r, c):
+    out = []
+    for dr, dc in dirs:
+        if kind == "half":
+            p = _first_valid(lambda i: (r + _quot2(dr * i), c + _quot2(dc * i)), n0, n1, m)
+        else:
+            p = _first_valid(lambda i: (r + dr * i, c + dc * i), n0, n1, m)
+        out.append(None if p is None else d[p[0]][p[1]])
+    return [x for x in out if x is not None]
+
+
+def _median(fin):
+    s = sorted(fin)
+    n = len(s)
+    return (s[n // 2 - 1] + s[n // 2]) / 2 if n % 2 == 0 else s[n // 2]
+
+
+def spec_outputs(cs, method):
+    """(allowed disparities per pixel: a set, mask per pixel) according to Spec/Interp.v; None when the case is
+    outside the Spec's domain (a pixel carrying both bits 8 and 9)"""
+    n0, n1, off = cs["n0"], cs["n1"], cs["offset"]
+    d0, m0 = cs["disp"], cs["mask"]
+    if any((m0[r][c] & OCC) and (m0[r][c] & MIS) for r in range(n0) for c in range(n1)):
+        return None
+    if off > 0 and any(m0[r][c] != 1 for r in range(n0) for c in range(n1)
+                       if r < off or r >= n0 - off or c < off or c >= n1 - off):
+        return None   # the cross-check leaves bit 0 only on the border
+    d1 = [row[:] for row in d0]
+    m1 = [row[:] for row in m0]
+    if method == "mc-cnn":
+        for r in range(n0):
+            for c in range(n1):
+                if m0[r][c] & OCC:
+                    p = _first_valid(lambda i: (r, c - i), n0, n1, m0) or _first_valid(lambda i: (r, c + i), n0, n1, m0)
+                    if p is not None:
+                        d1[r][c], m1[r][c] = d0[p[0]][p[1]], _swapped(8, 4, m0[r][c])
+        d2 = [[{v} for v in row] for row in d1]
+        m2 = [row[:] for row in m1]
+        for r in range(n0):
+            for c in range(n1):
+                if m1[r][c] & MIS:
+                    fin = _contributions("half", DIRS16_RC, n0, n1, d1, m1, r, c)
+                    if fin:
+                        d2[r][c], m2[r][c] = {_median(fin)}, _swapped(9, 5, m1[r][c])
+                if off > 0 and (r < off or r >= n0 - off or c < off or c >= n1 - off):
+                    m2[r][c] = 1
+        return d2, m2
+    for r in range(n0):
+        for c in range(n1):
+            if m0[r][c] & MIS:
+                touches = any(m0[rr][cc] & OCC for rr in range(max(0, r - 1), min(n0 - 1, r + 1) + 1)
+                              for cc in range(max(0, c - 1), min(n1 - 1, c + 1) + 1))
+                if touches:
+                    m1[r][c] = _swapped(9, 8, m0[r][c])
+                else:
+                    fin = _contributions("straight", DIRS8_RC, n0, n1, d0, m0, r, c)
+                    if fin:
+                        d1[r][c], m1[r][c] = _median(fin), _swapped(9, 5, m0[r][c])
+    d2 = [[{v} for v in row] for row in d1]
+    m2 = [row[:] for row in m1]
+    for r in range(n0):
+        for c in range(n1):
+            if m1[r][c] & OCC:
+                fin = _contributions("straight", DIRS8_RC, n0, n1, d1, m1, r, c)
+                if len(fin) >= 2:
+                    second = sorted(abs(x) for x in fin)[1]
+                    d2[r][c], m2[r][c] = {x for x in fin if abs(x) == second}, _swapped(8, 4, m1[r][c])
+    return d2, m2
+
+
 def check_property(ctx, cs, method, d1, m1):
+    spec = spec_outputs(cs, method)
+    if spec is not None:
+        sd, sm = spec
+        for r in range(cs["n0"]):
+            for c in range(cs["n1"]):
+                if m1[r][c] != sm[r][c] or d1[r][c] not in sd[r][c]:
+                    ctx.violation("not_as_spec_" + method.replace("-", "_"),
+                                  f"{method}, map {cs['n0']}x{cs['n1']}: pixel ({r},{c}) mask {cs['mask'][r][c]} "
+                                  f"disparity {cs['disp'][r][c]} ends with mask {m1[r][c]} disparity {d1[r][c]}; "
+                                  f"Spec/Interp.v allows mask {sm[r][c]} disparity in "
+                                  f"{sorted(map(str, sd[r][c]))}",
+                                  {"case": case_to_json(cs), "method": method})
+                    break
+            else:
+                continue
+            break
+    else:
+        return 0, 0   # outside the property's domain: correspondence only
     n0, n1, off = cs["n0"], cs["n1"], cs["offset"]
     d0, m0 = cs["disp"], cs["mask"]
     replay = {"case": case_to_json(cs), "method": method}
@@ -309,6 +438,92 @@ def check_property(ctx, cs, method, d1, m1):
     return n_filled, n_kept
 
 
+# ---------------------------------------------------------------- validation_run of the state machine
+
+def run_validation_stream(ctx, model, n_cases):
+    """PandoraMachine.validation_run (state_machine.py:462-481) with interpolated_disparity, on left/right
+    disparity datasets generated as in C07: (a) exact comparison with the extracted validation_interp_run;
+    (b) the property on the real outputs: each final dataset must be what Spec/Interp.v allows from the dataset
+    as the real cross-check leaves it (so: both datasets interpolated, after both cross-checks)."""
+    from pandora import validation
+    from pandora.state_machine import PandoraMachine
+    from harness.props import c07
+
+    rng = ctx.rng
+    cases = []
+    if getattr(ctx, "replay_case", None) is not None:
+        cases = [(c07.case_from_json(ctx.replay_case["case"]), ctx.replay_case["method"])]
+    else:
+        for i in range(n_cases):
+            cs = c07.gen_case(rng, rng.choice(["structured", "structured", "half", "tiny", "edge"]))
+            cs["thr_is_int"] = False
+            cases.append((cs, METHODS[i % 2]))
+    margs = []
+    for cs, method in cases:
+        dmin, dmax = cs["interval"]
+        margs.append((5, [c07.enc_ds(cs["L"], cs["maskL"], (dmin, dmax), cs["offset"]),
+                          c07.enc_ds(cs["R"], cs["maskR"], (-dmax, -dmin), cs["offset"]), cs["thr"],
+                          METHODS.index(method)]))
+    mres = model.batch(margs)
+
+    def snap(ds):
+        d = [[core.to_q(v) if np.isfinite(v) else (None if np.isnan(v) else "inf") for v in row]
+             for row in ds["disparity_map"].data]
+        return d, ds["validity_mask"].data.astype(int).tolist()
+
+    for (cs, method), mr in zip(cases, mres):
+        dmin, dmax = cs["interval"]
+        replay = {"stream": "validation_run", "case": c07.case_to_json(cs), "method": method}
+        vcfg = {"validation_method": "cross_checking_accurate", "cross_checking_threshold": float(cs["thr"]),
+                "interpolated_disparity": method}
+        # the real callback
+        mach = PandoraMachine()
+        mach.left_disparity = c07.make_ds(cs["L"], cs["maskL"], (dmin, dmax), cs["offset"], cs["nbL"])
+        mach.right_disparity = c07.make_ds(cs["R"], cs["maskR"], (-dmax, -dmin), cs["offset"], cs["nbR"])
+        mach.right_disp_map = "cross_checking_accurate"
+        mach.validation_run({"pipeline": {"validation": dict(vcfg)}}, "validation")
+        fl, fr = snap(mach.left_disparity), snap(mach.right_disparity)
+        ctx.traces += 1
+        ctx.count("validation_run_cases")
+        model_out = ([[core.q_of(v) for v in row] for row in mr[0]], mr[1],
+                     [[core.q_of(v) for v in row] for row in mr[2]], mr[3])
+        if (fl[0], fl[1], fr[0], fr[1]) != model_out:
+            ctx.mismatch("validation_run-" + method, replay,
+                         {"left": [str(fl[0]), fl[1]], "right": [str(fr[0]), fr[1]]},
+                         {"left": [str(model_out[0]), model_out[1]], "right": [str(model_out[2]), model_out[3]]})
+        # the property: the real cross-checks alone, then what the Spec allows from there
+        val = validation.AbstractValidation(validation_method="cross_checking_accurate",
+                                            cross_checking_threshold=float(cs["thr"]))
+        left = c07.make_ds(cs["L"], cs["maskL"], (dmin, dmax), cs["offset"], cs["nbL"])
+        right = c07.make_ds(cs["R"], cs["maskR"], (-dmax, -dmin), cs["offset"], cs["nbR"])
+        left = val.disparity_checking(left, right)
+        right = val.disparity_checking(right, left)
+        nontrivial = False
+        for side, mid_ds, fin in (("left", left, fl), ("right", right, fr)):
+            md, mm = snap(mid_ds)
+            mid = {"kind": "validation_run", "n0": len(md), "n1": len(md[0]), "offset": cs["offset"], "disp": md,
+                   "mask": mm}
+            spec = spec_outputs(mid, method)
+            if spec is None:
+                continue
+            sd, sm = spec
+            bad = [(r, c) for r in range(mid["n0"]) for c in range(mid["n1"])
+                   if fin[1][r][c] != sm[r][c] or fin[0][r][c] not in sd[r][c]]
+            if bad:
+                r, c = bad[0]
+                ctx.violation("validation_run_" + side + "_not_interpolated_as_spec",
+                              f"validation_run with interpolated_disparity={method}: {side} dataset, pixel ({r},{c}) "
+                              f"holds mask {mm[r][c]} disparity {md[r][c]} after the cross-checks and ends with mask "
+                              f"{fin[1][r][c]} disparity {fin[0][r][c]}; Spec/Interp.v allows mask {sm[r][c]} disparity "
+                              f"in {sorted(map(str, sd[r][c]))}", replay)
+            if any(mm[r][c] != fin[1][r][c] for r in range(mid["n0"]) for c in range(mid["n1"])):
+                nontrivial = True
+        digest = None
+        if nontrivial:
+            digest = hashlib.sha1(json.dumps(replay, sort_keys=True).encode()).hexdigest()[:16]
+        ctx.case(digest)
+
+
 # ---------------------------------------------------------------- run
 
 def run(ctx):
@@ -330,8 +545,17 @@ def run(ctx):
         ex = ex[::6]
     cases += ex
     ctx.stats["exhaustive_cases"] = len(ex)
+    ctx.gen_obligations = ["Gen.ValConst constants = Model constants (C14_constants_match, reflexivity on the "
+                           "regenerated file)",
+                           "Gen.Callbacks validation_run call structure = the one validation_interp_run models "
+                           "(C14_validation_run_calls, reflexivity on the regenerated file)"]
     if getattr(ctx, "replay_case", None) is not None:
+        if ctx.replay_case.get("stream") == "validation_run":
+            run_validation_stream(ctx, model, 1)
+            return
         cases = [case_from_json(ctx.replay_case["case"])]
+    else:
+        run_validation_stream(ctx, model, 160 if quick else 4000)
 
     margs = []
     for cs in cases:
@@ -364,9 +588,12 @@ def run(ctx):
                             "disp_after": [[None if v is None else float(v) for v in row] for row in d1],
                             "mask_after": m1}, limit=6)
         ctx.case(digest)
-    ctx.gen_obligations = ["Gen.ValConst constants = Model constants (reflexivity on the regenerated file)"]
     ctx.stats["spec_clauses_checked_on_impl"] = [
+        "outputs of the real code are among those Spec/Interp.v allows (independent transcription of the Spec: first "
+        "valid pixel along each path, median, second lowest |d|, bit swaps, border)",
         "pixels without bit 8/9 keep disparity and mask", "flag swap 8->4 / 9->5 / sgm 9->8->4, or pixel untouched",
         "filled value finite and within [min,max] of the valid disparities", "filled => a valid pixel in sight along "
         "the kernel's directions (two for sgm occlusion)", "mc-cnn occlusion source = first valid left else right",
-        "border pixels end with mask 1"]
+        "border pixels end with mask 1",
+        "PandoraMachine.validation_run: left and right final datasets = what the Spec allows from the datasets as "
+        "the real cross-checks leave them"]
